@@ -58,11 +58,15 @@ func NewH265Depacketizer(meta *codec.VideoMeta, w codec.FrameWriter) Depacketize
  */
 func (h265dp *h265Depacketizer) Depacketize(packet *Packet) (err error) {
 	payload := packet.Payload()
-	if len(payload) < 3 {
+	if len(payload) < 2 {
 		return
 	}
 
 	naluType := (payload[0] >> 1) & 0x3f
+	if (naluType == hevc.NalStapInRtp || naluType == hevc.NalFuInRtp) && len(payload) < 3 {
+		// too short for an aggregation packet or a fragmentation unit
+		return
+	}
 
 	switch naluType {
 	case hevc.NalStapInRtp: // 在RTP中的聚合（AP）
